@@ -11,7 +11,7 @@ BASELINE = ("cd /repo && /venv/bin/python -m pytest -ra -q -p no:cacheprovider -
 CLAIMED = {
     "C07": ("DESIGN.md §5 C07",
             "Exhaustive enumeration of every subset of <= 2 (quick) / <= 3 (thorough) ingredients from a "
-            "42-item menu x 9 public compile functions x both UFO libraries, each followed by a second call "
+            "47-item menu x 9 public compile functions x both UFO libraries, each followed by a second call "
             "on the same objects (thorough: cross-function histories of depth 3); the real compile function "
             "runs in every state and a deep snapshot of all caller-owned objects is compared after every "
             "call, returned or raised.",
@@ -33,7 +33,8 @@ CLAIMED["C01"] = (
 CLAIMED["C05"] = (
     "DESIGN.md §5 C05",
     "BFS over kerning dictionaries (add-one-entry ops, 56 keys x value palette, depth 2, interacting keys only) x "
-    "8 group configurations x 11 environment switches, plus the complete 4-level exception lattice; in every state "
+    "9 group configurations x 12 environment switches, plus the complete 4-level exception lattice and a "
+    "cross-script merge lattice; in every state "
     "the compiled GPOS is evaluated by an independent PairPos interpreter for every ordered pair of a 13-glyph "
     "multi-script repertoire under every selectable script/language and compared with UFO kerning semantics; both "
     "kern writers.",
@@ -58,12 +59,14 @@ CLAIMED["C03"] = row("§5 C03 / §15",
     "All glyph-name subsets of a 5-name universe x all stored orders up to length 4/5 x explicit orders up to length "
     "2/3 at the makeOfficialGlyphOrder seam (4.4M / 155M calls), compile-seam orders, all code-point assignments of "
     "size <= 2/3 per glyph over {41,42,FFFF,10000,1F600} for 3 glyphs x TTF/OTF x both libraries, BFS over UVS "
-    "entries; reference order / cmap / UVS functions written from the statement.",
+    "entries; the notdefGlyph= argument (three kinds of supplied glyph); the glyph orders of the two variable fonts "
+    "of a discrete-axis designspace whose default sources store different orders; reference order / cmap / UVS "
+    "functions written from the statement.",
     "Trusted: fontTools cmap reader. Name universes > 5 and orders > 5 are outside the bound.",
     "exhaustive enumeration of glyph-order / code-point assignments; BFS over UVS entries; reference model comparison")
 CLAIMED["C06"] = row("§5 C06 / §15",
     "BFS over anchor assignments (23 (glyph, anchor-name) slots x 3 positions, depth 3/4, plus rich seed states "
-    "expanded by one op) x 9 environment switches; every ordered glyph pair and every ligature component is "
+    "expanded by one or two ops, incl. two-digit ligature components) x 12 environment switches; every ordered glyph pair and every ligature component is "
     "evaluated by the independent MarkBase/MarkLig/MarkMark interpreter in every state and compared with the "
     "source anchors; anchor insertion order is re-validated (confluence).",
     "Trusted: mc/otl_ref.py (selftested). Contextual anchors and > 4 interacting anchors are outside the bound.",
@@ -72,8 +75,10 @@ CLAIMED["C08"] = row("§5 C08 / §3",
     "Schedule space = PYTHONHASHSEED: seeds chosen by a greedy cover until all k! iteration orders of five tracked "
     "name sets are realised (31 seeds of 0..199); per (input, seed) a fresh subprocess runs every call history of "
     "depth <= 2/3 over the compile functions on the same objects, and on seeds 0/1 the full product UFO library x "
-    "in-memory/saved-and-reopened(lazy, eager) x inplace x 24/48 construction-order permutations; sha256 of font "
-    "bytes and emitted feature text must equal the fresh reference.",
+    "in-memory/saved-and-reopened(lazy, eager) x inplace x 24/48 construction-order permutations; the process time "
+    "zone east and west of UTC; every call history of length 2/3 on ONE object of each of the six exported compiler "
+    "classes over {two good sources, bad feature code, incompatible masters}; sha256 of font bytes and emitted "
+    "feature text must equal the fresh reference.",
     "Trusted: CPython hashing model (only string-hash order is scheduled), SOURCE_DATE_EPOCH pinning.",
     "exhaustive schedule enumeration over hash-seed-induced set orders x call histories, differential digest oracle")
 CLAIMED["C11"] = row("§5 C11 / §15",
@@ -94,19 +99,21 @@ CLAIMED["C16"] = row("§5 C16 / §15",
 CLAIMED["C17"] = row("§5 C17 / §15",
     "BFS 'append top-level statement' over a 35-block palette (languagesystems, class/lookup definitions, GSUB "
     "feature, kern/dist/mark/mkmk/curs blocks in six marker shapes, GDEF, comment) to depth 2 (+1 restricted) / 3 "
-    "(+1), x 10 writer lists x skip/append on the shorter histories; emitted feature source parsed back and compared "
+    "(+1), x 22 writer lists (explicit, UFO lib, ellipsis; a third-party GSUB writer in every position) x skip/append on the shorter histories; emitted feature source parsed back and compared "
     "with the user's statements; GSUB byte identity; GSUB-writer position independence.",
     "Trusted: feaLib parser/asFea as canonical form. Nested blocks deeper than one level and include() are outside.",
     "explicit-state BFS over feature-file construction histories with a subsequence / placement oracle")
 CLAIMED["C18"] = row("§5 C18 / §15",
     "All 7^5 category maps over (base, ligature, mark, skipped, nonexistent) glyph names, with user GDEF variants; "
     "BFS over caret anchors (6 names x 4 coordinates, depth 3/4); all 6^4 entry/exit shape assignments to (Latin, "
-    "Arabic, common, unencoded) glyphs with/without a GSUB alternate and with/without any LTR glyph; GDEF classes, "
+    "Arabic, common, unencoded) glyphs with/without a GSUB alternate, without any LTR glyph, with an LTR-only "
+    "character map, through designspace rules on both designspace paths and with writer objects reused across two "
+    "designspaces; GDEF classes, "
     "LigCaretList and CursivePos records + RightToLeft flag read back and compared with the source.",
     "Trusted: fontTools GDEF/GPOS readers.",
     "exhaustive enumeration of category maps / cursive assignments, BFS over caret anchors, reference comparison")
 CLAIMED["C19"] = row("§5 C19 / §15",
-    "164-186 designspace setups (5 topologies x axis map x rounding x rule sets x scribble mode) x call histories of "
+    "190-210 designspace setups (incl. families where one complete master has no kerning) (5 topologies x axis map x rounding x rule sets x scribble mode) x call histories of "
     "<= 3/4 generate_instance / replace_source_layers / swap requests on ONE instantiator at every grid location; "
     "results compared with the master data or an independent closed-form blend (mc/var_ref.py), with a fresh "
     "instantiator (history independence), and sources with their snapshots (frame).",
@@ -114,7 +121,8 @@ CLAIMED["C19"] = row("§5 C19 / §15",
     "explicit-state exploration of call histories on live objects with differential and frame oracles")
 CLAIMED["C20"] = row("§5 C20 / §15",
     "Complete product: 5 repertoire mixes x 2 kerning kinds x 3 anchor kinds x all 32 subsets of a 5-statement "
-    "languagesystem menu x 3 user-feature shapes (x TTF/OTF in thorough); every script and language system of the "
+    "languagesystem menu x 3 user-feature shapes (x TTF/OTF in thorough), ordered statement scenarios, reused "
+    "writers and two-master variable fonts with variable features; every script and language system of the "
     "compiled GPOS is checked for reachability of every generated attaching feature that has a complete pair "
     "usable in that script.",
     "Trusted: fontTools GPOS reader, fontTools.unicodedata.",
@@ -125,21 +133,27 @@ CLAIMED["C04"] = row("§5 C04 / §15",
     "CFF2} x vertical on/off x .notdef {explicit, synthesised, empty} x keepGlyphNames; every prefix is a compiled "
     "state; saved bytes == re-saved bytes (lazy and fully decompiled) and every derived field of "
     "hmtx/hhea/vmtx/vhea/head/maxp/post/VORG/OS2 is recomputed from the stored glyph data, on the reloaded font "
-    "and on the returned TTFont object.",
+    "and on the returned TTFont object; fractional outlines x roundTolerance; TrueType glyph programs x four kinds "
+    "of font-level instruction data (maxp instruction fields recomputed from the stored programs).",
     "Trusted: fontTools table readers. Sequences > 5 glyphs and curves with off-curve extrema are outside the bound.",
     "explicit-state BFS over glyph-append histories with recomputation oracle for derived fields")
 CLAIMED["C09"] = row("§5 C09 / §15",
     "Families of 2-4 point-compatible masters over all 144 ordered pairs of a 12-cubic palette (122 pairs need "
     "different segment counts when converted alone) x BFS over structure ops (components, differing 2x2, nesting, "
     "mixed glyphs, sparse layers, skipExportGlyphs, per-master filters) to depth 2/3 x the three interpolatable "
-    "entry points; per-glyph point/flag/component/operator structure must be identical in all returned masters.",
+    "entry points; per-glyph point/flag/component/operator structure must be identical in all returned masters; "
+    "every sequence of <= 3/4 pre-filters from a 5-filter menu over families whose sparse master holds only "
+    "composites / only bases (axis 0..1000 and 0..1): the sparse composite must be the interpolation of the bases "
+    "as the earlier filters left them.",
     "Trusted: fontTools glyf/CFF readers. > 4 masters, > 2 axes are outside the bound.",
     "explicit-state BFS over master-family construction histories with a cross-master structural-equality invariant")
 CLAIMED["C10"] = row("§5 C10 / §15",
     "Complete product of 4 master topologies x axis map x per-master kerning presence patterns ({absent, v1, v2} for a "
     "class pair and its exception in every master) x per-master anchors x {TTF, CFF2} x variableFeatures {on, off}; the "
     "variable font is instantiated at every full master location and compared with the interpolatable master "
-    "(+-1 unit), with the master UFO kerning (all ordered pairs through the GPOS interpreter) and anchors.",
+    "(+-1 unit), with the master UFO kerning (all ordered pairs through the GPOS interpreter) and anchors; format-5 "
+    "designspaces with two variable fonts over sub-ranges of one axis, each with its own default master and anchor "
+    "inventory (compileVariableTTFs / compileVariableCFF2s).",
     "Trusted: fontTools.varLib.instancer as evaluator of the variable font, mc/otl_ref.py, mc/kern_ref.py.",
     "exhaustive enumeration of master families with instancer-based replay against per-master reference data")
 CLAIMED["C12"] = row("§5 C12 / §15",
@@ -154,7 +168,8 @@ CLAIMED["C13"] = row("§5 C13 / §15",
     "transforms) + a mark glyph; in every state ALL 31 skip subsets are compiled (TTF, OTF; argument, UFO lib, "
     "UFO-list union, designspace lib; static, interpolatable, variable) and compared with the unskipped compile: "
     "glyph order, cmap, hmtx, contour multisets, TrueType component lists, GDEF classes, kerning and mark "
-    "attachment of every remaining pair.",
+    "attachment of every remaining pair; sparse two-axis families through varLib, masters that disagree on a glyph's "
+    "construction, and a non-default layer compiled on its own.",
     "Trusted: fontTools readers, mc/otl_ref.py. Straight-line integer outlines only (TrueType component rounding).",
     "exhaustive enumeration of component graphs x all skip subsets with a differential (skip vs no-skip) oracle")
 
@@ -162,8 +177,8 @@ CLAIMED["C14"] = row("§5 C14 / §15",
     "31 filter configurations (every shipped filter and I-variant incl. degenerate options) x 132 include/exclude/"
     "predicate specifications x three sibling fonts; every history of <= 2 (quick) / 3 (thorough) invocations of ONE "
     "filter object; four oracle clauses: untouched glyphs snapshot-equal, every changed/added/removed glyph reported, "
-    "source font frame, history independence against a fresh filter object (and master-order independence of "
-    "I-filters).",
+    "source font frame, history independence against a fresh filter object (also on the SAME font object with "
+    "another glyph set; master-order independence of I-filters).",
     "Trusted: mc/snapshot.py. Third-party filters, fonts > 7 glyphs, histories > 3 are outside the bound.",
     "explicit-state exploration of filter call histories on live objects with frame, report and differential oracles")
 CLAIMED["C15"] = row("§5 C15 / §15",
